@@ -390,6 +390,16 @@ impl Index for HnswIndex {
     }
 
     fn delete(&mut self, id: TupleId) {
+        // Only stored vectors can be tombstoned: an unknown id would inflate
+        // tombstone_count()/tombstone_ratio() and trigger needless compactions
+        if !self
+            .vectors
+            .read()
+            .iter()
+            .any(|(existing_id, _)| *existing_id == id)
+        {
+            return;
+        }
         self.tombstones.write().insert(id);
 
         // Auto-compact when tombstone ratio exceeds 30% (#49)
